@@ -10,7 +10,7 @@ cp "$D/known_findings.json" $S/v/; cp "$D/selftest/catalogue.json" $S/v/selftest
 git -C /repo worktree add --detach $S/r HEAD >/dev/null 2>&1 || exit 2
 trap 'git -C /repo worktree remove --force $S/r 2>/dev/null; rm -rf $S' EXIT
 git -C $S/r apply "$patch" || { echo "patch does not apply"; exit 2; }
-"$D/checker/bin/pgv" -repo $S/r -verif $S/v -prop "$props" -tier "$tier" > $S/out.txt 2>&1
+"${PGV:-$D/checker/bin/pgv}" -repo $S/r -verif $S/v -prop "$props" -tier "$tier" > $S/out.txt 2>&1
 echo "exit=$?"
 grep -E "^VIOLATION" $S/out.txt | cut -c1-60
 grep -E "^\s+(violated|undecided|unresolved|vacuous)" $S/out.txt | cut -c1-${SEEDCOLS:-300} | head -${SEEDLINES:-12}
